@@ -242,7 +242,7 @@ func runC02own(c *core.Ctx) {
 				}
 				n++
 				okk, w, _ := condMust(c, closure, nil, func(x ssa.Instruction) bool { return x == in }, func(ssa.Instruction) bool { return false }, []string{
-					"T:(const(0) == fld(TxnStatus.ttl,*", "T:invoke(oracle.Oracle.IsExpired)#0*", "T:(fld(LockResolver.store,*) == nil)",
+					"T:(const(0) == fld(TxnStatus.ttl,*", "T:fld(LockInfo.UseAsyncCommit,*",
 				})
 				a.check(okk, fname(closure)+" lock removal needs ttl==0 or expiry", in, "", "a lock whose transaction is alive (status ttl ≠ 0, not expired on the resolver's clock) can be resolved / rolled back: "+a.w(w))
 			})
